@@ -695,7 +695,8 @@ def matrix_layer(ctx):
 def literal_layer(ctx):
     rng = ctx.rng
     texts = ['SELECT %s' % t for t in
-             ['0', '007', '1.', '.5', '0.50', '00.50', '1.5', '99999999999999999999999999', '2020-01-01', '0001-01-01', '9999-12-31',
+             ['0', '007', '1.', '.5', '0.50', '00.50', '1.5', '99999999999999999999999999', '0.12345678901234567890123456789',
+              '1.0000000000000000000000000001', '123456789012345678901234567890.12345', '1.0000000000000000000000000001 = 1.0', '2020-01-01', '0001-01-01', '9999-12-31',
               '2020-02-29', '2021-02-29', '2020-13-01', '2020-00-10', '0000-01-01', '2020-1-1', '12345-01-01', '2020-01-015', '1.5.2', '1 .5',
               "''", '""', "'a''b'", '"x\'y"', "'multi\nline'", "'a\\'", "'unterminated", 'TRUE', 'true', 'False', 'NULL', 'null', 'Null',
               '(1, 2)', '(1,)', '(1,,2)', '(1, NULL)', '(NULL, 1)', '(NULL, NULL)', '(NULL,)', '(1,2,)', '(,1)', '()', '(1)', '((1, 2))',
